@@ -66,11 +66,15 @@ def create_groove_by_type_name(type_name: str, **kwargs) -> GrooveBase:
                    allowed arguments depend on the actual groove-type
     """
     import re
+    import sys
+
+    # a name given exactly as a groove class of this package is taken as it is
+    groove_cls = getattr(sys.modules[__name__], type_name, None)
+    if isinstance(groove_cls, type) and issubclass(groove_cls, GrooveBase):
+        return groove_cls(**kwargs)
 
     type_name = re.sub(r"[\s\-_.]+(\w)", lambda m: m.group(1).capitalize(), type_name.title())
     type_name = type_name if type_name.endswith("Groove") else type_name + "Groove"
-
-    import sys
 
     groove_cls = getattr(sys.modules[__name__], type_name, None)  # try to get classes of grooves package first
 
